@@ -1,4 +1,5 @@
 \* C17 quick: the 72 cells of the matrix + every interleaving of <= 2 connections, <= 2 reloads, <= 2 uses, with and without mutual TLS
+\* (duplex scripts) + the real-server scripts: <= 2 connections (trusted client certificate / none / other CA) x <= 2 reloads x <= 1 use
 SPECIFICATION Spec
 CONSTANTS
   Mode = "swap"
@@ -6,5 +7,9 @@ CONSTANTS
   MaxReload = 2
   MaxUse = 2
   Mtls = {FALSE, TRUE}
-INVARIANTS TypeOK Undisturbed Fresh Emit
+  RMaxConn = 2
+  RMaxReload = 2
+  RMaxUse = 1
+  RealMtls = {FALSE, TRUE}
+INVARIANTS TypeOK Undisturbed Fresh ConfigKept Authenticated Emit
 CHECK_DEADLOCK FALSE
